@@ -4,15 +4,128 @@ namespace TaskModel.Finger
 
 variable (cfg : Cfg) (H : Bytes → Bytes) (pr : Proj)
 
+/-! ### the timestamp check -/
+
+theorem le_foldl_max (l : List Nat) (a x : Nat) (h : x ≤ a ∨ x ∈ l) : x ≤ l.foldl Nat.max a := by
+  induction l generalizing a with
+  | nil => simpa using h
+  | cons b l ih =>
+    simp only [List.foldl_cons]
+    apply ih
+    rcases h with h | h
+    · exact Or.inl (Nat.le_trans h (Nat.le_max_left a b))
+    · simp only [List.mem_cons] at h
+      rcases h with h | h
+      · subst h; exact Or.inl (Nat.le_max_right a x)
+      · exact Or.inr h
+
+theorem le_maxOf (l : List Nat) (x : Nat) (h : x ∈ l) : x ≤ maxOf l :=
+  le_foldl_max l 0 x (Or.inr h)
+
+
+/-- the times the sources are compared with: generates that exist, plus the marker if it exists -/
+def tsGts (t : Task) (s : State) : List Nat :=
+  (globs (nowPats t.generates s.files)).map (mtimeOf s.files) ++
+    (match aget s.marks (tsKey t) with | some m => [m] | none => [])
+
+/-- the verdict of the (patched) timestamp check: something to compare with, no source newer than
+it, and every non-negated `generates` entry matches an existing file -/
+def tsUp (t : Task) (s : State) : Bool :=
+  !(tsGts t s).isEmpty && !(srcsNow t s.files).any (fun p => decide (maxOf (tsGts t s) < mtimeOf s.files p)) &&
+    gensOk t s.files
+
+/-- **`tsCheck` in one line**: the verdict is `tsUp`; the state is untouched by a dry check and by
+a check that says "up to date" while the marker exists; in every other case the marker is left
+at the time of the check (created, or touched because the task is going to run). -/
+theorem tsCheck_eq (t : Task) (dry : Bool) (now : Nat) (s : State) :
+    tsCheck t dry now s =
+      (if dry || (tsUp t s && (aget s.marks (tsKey t)).isSome) then s
+       else { s with marks := aset s.marks (tsKey t) now }, tsUp t s) := by
+  unfold tsCheck tsUp tsGts
+  simp only
+  cases hm : aget s.marks (tsKey t) with
+  | none =>
+    simp only [List.append_nil, Option.isSome_none, Bool.and_false, Bool.or_false, Bool.false_eq_true, if_false]
+    generalize List.map (mtimeOf s.files) (globs (nowPats t.generates s.files)) = l
+    cases l with
+    | nil => cases dry <;> simp
+    | cons a l =>
+      simp only [List.isEmpty_cons, Bool.false_eq_true, if_false, Bool.not_false, Bool.true_and]
+      generalize ((!(srcsNow t s.files).any fun p => decide (maxOf (a :: l) < mtimeOf s.files p)) && gensOk t s.files) = up
+      cases dry <;> cases up <;> simp [aset_aset]
+  | some m =>
+    simp only [Option.isSome_some, if_true, Bool.and_true]
+    have hne : (List.map (mtimeOf s.files) (globs (nowPats t.generates s.files)) ++ [m]).isEmpty = false := by
+      cases List.map (mtimeOf s.files) (globs (nowPats t.generates s.files)) <;> rfl
+    simp only [hne, Bool.false_eq_true, if_false, Bool.not_false, Bool.true_and]
+    generalize ((!(srcsNow t s.files).any fun p =>
+      decide (maxOf (List.map (mtimeOf s.files) (globs (nowPats t.generates s.files)) ++ [m]) < mtimeOf s.files p)) &&
+      gensOk t s.files) = up
+    cases dry <;> cases up <;> simp
+
+theorem tsCheck_result (t : Task) (dry : Bool) (now : Nat) (s : State) : (tsCheck t dry now s).2 = tsUp t s := by
+  rw [tsCheck_eq]
+
+/-- a check leaves every OTHER marker alone -/
+theorem tsCheck_marks_other (t : Task) (dry : Bool) (now : Nat) (s : State) (x : Bytes) (hx : x ≠ tsKey t) :
+    aget (tsCheck t dry now s).1.marks x = aget s.marks x := by
+  rw [tsCheck_eq]
+  simp only
+  split
+  · rfl
+  · exact aget_aset_ne _ _ (fun e => hx e.symm)
+
+/-- **an up-to-date verdict does not move an existing marker**: the whole state is unchanged -/
+theorem tsCheck_upToDate_pure (t : Task) (dry : Bool) (now : Nat) (s : State)
+    (hmk : (aget s.marks (tsKey t)).isSome = true) (hup : (tsCheck t dry now s).2 = true) :
+    (tsCheck t dry now s).1 = s := by
+  rw [tsCheck_result] at hup
+  rw [tsCheck_eq]
+  simp [hup, hmk]
+
+/-- an up-to-date verdict without a marker (the generates alone vouched): the marker is created
+with the time of the check -/
+theorem tsCheck_upToDate_created (t : Task) (now : Nat) (s : State)
+    (hmk : aget s.marks (tsKey t) = none) :
+    (tsCheck t false now s).1 = { s with marks := aset s.marks (tsKey t) now } := by
+  rw [tsCheck_eq]
+  simp [hmk]
+
+/-- **a not-up-to-date verdict of a non-dry check leaves the marker at the time of the check** -/
+theorem tsCheck_stored (t : Task) (now : Nat) (s : State) (hno : (tsCheck t false now s).2 = false) :
+    aget (tsCheck t false now s).1.marks (tsKey t) = some now := by
+  rw [tsCheck_result] at hno
+  rw [tsCheck_eq]
+  simp [hno]
+
+/-- after any non-dry check the marker exists: at the time of the check, or (verdict "up to date",
+marker present before) where it was -/
+theorem tsCheck_marker_after (t : Task) (now : Nat) (s : State) :
+    aget (tsCheck t false now s).1.marks (tsKey t) = some now ∨
+    ((tsCheck t false now s).2 = true ∧ (tsCheck t false now s).1 = s ∧ (aget s.marks (tsKey t)).isSome = true) := by
+  cases hv : (tsCheck t false now s).2 with
+  | false => exact Or.inl (tsCheck_stored t now s hv)
+  | true =>
+    cases hm : aget s.marks (tsKey t) with
+    | none => left; rw [tsCheck_upToDate_created t now s hm]; simp
+    | some m =>
+      have hs : (aget s.marks (tsKey t)).isSome = true := by rw [hm]; rfl
+      right; exact ⟨rfl, tsCheck_upToDate_pure t false now s hs hv, by rw [← hm]; exact hs⟩
+
+@[simp] theorem tsCheck_dry (t : Task) (now : Nat) (s : State) : (tsCheck t true now s).1 = s := by
+  rw [tsCheck_eq]; simp
+
+theorem tsCheck_fields (t : Task) (dry : Bool) (now : Nat) (s : State) :
+    (tsCheck t dry now s).1.files = s.files ∧ (tsCheck t dry now s).1.sums = s.sums ∧
+    (tsCheck t dry now s).1.log = s.log ∧ (tsCheck t dry now s).1.dirs = s.dirs := by
+  rw [tsCheck_eq]
+  simp only
+  split <;> simp
+
 /-! ### dry checks write nothing -/
 
 @[simp] theorem sumCheck_dry (t : Task) (s : State) : (sumCheck H pr t true s).1 = s := by
   simp [sumCheck]
-
-@[simp] theorem tsCheck_dry (t : Task) (now : Nat) (s : State) : (tsCheck t true now s).1 = s := by
-  unfold tsCheck
-  simp only [if_true]
-  split <;> (split <;> rfl)
 
 @[simp] theorem srcCheck_dry (t : Task) (now : Nat) (s : State) : (srcCheck H pr t true now s).1 = s := by
   unfold srcCheck
@@ -32,12 +145,23 @@ theorem listJson_dry (h : cfg.listDry = true) (now : Nat) (ts : List Task) (s : 
     rw [ih]
     simp
 
-theorem runBody_dry (h : cfg.dryMkdir = false) (i : Nat) (t : Task) (e : Env) (s : State) :
+/-- **the dry body** of the repaired wiring: no state change, no command — also when a `task:`
+call fails (its precondition does not hold), which is the one way a dry body fails and the one
+place where the tree before TS4 reached `statusOnError` in a dry run -/
+theorem runBody_dry (h : cfg.dryMkdir = false) (h3 : cfg.dryOnError = false) (i : Nat) (t : Task) (e : Env) (s : State) :
     (runBody cfg H pr i t true e s).1 = s ∧ (runBody cfg H pr i t true e s).2.ran = [] := by
-  simp [runBody, h, Obs.quiet]
+  simp only [runBody, h, h3, Obs.quiet, Bool.not_true, Bool.and_false, Bool.false_and, Bool.false_eq_true, if_false, if_true]
+  split <;> exact ⟨rfl, rfl⟩
+
+/-- what the dry body reports: `failed` iff some call's precondition does not hold -/
+theorem runBody_dry_exit (h : cfg.dryMkdir = false) (h3 : cfg.dryOnError = false) (i : Nat) (t : Task) (e : Env) (s : State) :
+    (runBody cfg H pr i t true e s).2.exit = if t.cmds.any (fun c => c.blocked s.files) then .failed else .ok := by
+  simp only [runBody, h, h3, Obs.quiet, Bool.not_true, Bool.and_false, Bool.false_and, Bool.false_eq_true, if_false, if_true]
+  split <;> rfl
 
 /-- every read-only invocation of the repaired wiring leaves the state alone and runs nothing -/
-theorem invoke_readOnly (h1 : cfg.listDry = true) (h2 : cfg.dryMkdir = false) (i : Nat) (m : Mode) (e : Env) (s : State)
+theorem invoke_readOnly (h1 : cfg.listDry = true) (h2 : cfg.dryMkdir = false) (h3 : cfg.dryOnError = false)
+    (i : Nat) (m : Mode) (e : Env) (s : State)
     (hm : m.readOnly = true) :
     (invoke cfg H pr i m e s).1 = s ∧ (invoke cfg H pr i m e s).2.ran = [] := by
   cases m with
@@ -56,7 +180,7 @@ theorem invoke_readOnly (h1 : cfg.listDry = true) (h2 : cfg.dryMkdir = false) (i
     · split
       · simp
       · simp only [isUpToDate_dry]
-        exact runBody_dry cfg H pr h2 i _ e s
+        exact runBody_dry cfg H pr h2 h3 i _ e s
 
 
 /-! ### unfolding `invoke` -/
@@ -109,62 +233,6 @@ theorem sumCheck_stored (t : Task) (s : State) :
 theorem sumCheck_result (t : Task) (dry : Bool) (s : State) :
     (sumCheck H pr t dry s).2 = (gensOk t s.files && decide (aget s.sums (sumKey t) = some (fpNow H pr t s.files))) := rfl
 
-theorem tsCheck_fields (t : Task) (dry : Bool) (now : Nat) (s : State) :
-    (tsCheck t dry now s).1.files = s.files ∧ (tsCheck t dry now s).1.sums = s.sums ∧
-    (tsCheck t dry now s).1.log = s.log ∧ (tsCheck t dry now s).1.dirs = s.dirs := by
-  unfold tsCheck
-  simp only
-  split <;> (split <;> (try split) <;> (try split) <;> simp)
-
-/-- after a non-dry timestamp check the marker exists and carries the time of the check -/
-theorem tsCheck_stored (t : Task) (now : Nat) (s : State) :
-    aget (tsCheck t false now s).1.marks (tsKey t) = some now := by
-  unfold tsCheck
-  simp only [Bool.false_eq_true, if_false]
-  cases hm : aget s.marks (tsKey t) with
-  | some m => simp
-  | none =>
-    simp only [Option.isSome_none, Bool.false_eq_true, if_false]
-    split <;> simp
-
-theorem le_foldl_max (l : List Nat) (a x : Nat) (h : x ≤ a ∨ x ∈ l) : x ≤ l.foldl Nat.max a := by
-  induction l generalizing a with
-  | nil => simpa using h
-  | cons b l ih =>
-    simp only [List.foldl_cons]
-    apply ih
-    rcases h with h | h
-    · exact Or.inl (Nat.le_trans h (Nat.le_max_left a b))
-    · simp only [List.mem_cons] at h
-      rcases h with h | h
-      · subst h; exact Or.inl (Nat.le_max_right a x)
-      · exact Or.inr h
-
-theorem le_maxOf (l : List Nat) (x : Nat) (h : x ∈ l) : x ≤ maxOf l :=
-  le_foldl_max l 0 x (Or.inr h)
-
-
-/-- the times the sources are compared with: generates that exist, plus the marker if it exists -/
-def tsGts (t : Task) (s : State) : List Nat :=
-  (globs (nowPats t.generates s.files)).map (mtimeOf s.files) ++
-    (match aget s.marks (tsKey t) with | some m => [m] | none => [])
-
-theorem tsCheck_result (t : Task) (dry : Bool) (now : Nat) (s : State) :
-    (tsCheck t dry now s).2 =
-      (!(tsGts t s).isEmpty && !(srcsNow t s.files).any (fun p => decide (maxOf (tsGts t s) < mtimeOf s.files p))) := by
-  unfold tsCheck tsGts
-  simp only
-  cases aget s.marks (tsKey t) with
-  | none =>
-    simp only [List.append_nil]
-    generalize List.map (mtimeOf s.files) (globs (nowPats t.generates s.files)) = l
-    cases l <;> simp
-  | some m =>
-    simp only
-    split
-    · rename_i h; simp at h
-    · rename_i h; simp
-
 theorem foldl_max_lt (l : List Nat) (a x : Nat) (ha : a < x) (hl : ∀ m ∈ l, m < x) : l.foldl Nat.max a < x := by
   induction l generalizing a with
   | nil => simpa using ha
@@ -192,14 +260,15 @@ theorem runBody_ok (i : Nat) (t : Task) (e : Env) (s : State)
     · rename_i hl; simp [hl] at h
     · rename_i hl; simp [hl] at h
 
-theorem cmdLoop_clean (e : Env) (hk : e.killAt = none) (hf : e.failAt = none) (cs : List Cmd) (k : Nat) (fs : FS)
-    (ran : List Nat) :
+theorem cmdLoop_clean (e : Env) (hk : e.killAt = none) (hf : e.failAt = none) (cs : List Cmd)
+    (hn : ∀ c ∈ cs, c.need = none) (k : Nat) (fs : FS) (ran : List Nat) :
     (cmdLoop e cs k fs ran).2.1 = ran ++ List.range' k cs.length ∧ (cmdLoop e cs k fs ran).2.2 = .done := by
   induction cs generalizing k fs ran with
   | nil => simp [cmdLoop]
   | cons c cs ih =>
-    simp only [cmdLoop, hk, hf]
-    have := ih (k + 1) (applyWrites fs c.writes e.now) (ran ++ [k])
+    have hc : c.blocked fs = false := by simp [Cmd.blocked, hn c (by simp)]
+    simp only [cmdLoop, hk, hf, hc]
+    have := ih (fun x hx => hn x (by simp [hx])) (k + 1) (applyWrites fs c.writes e.now) (ran ++ [k])
     simp only [reduceCtorEq, if_false]
     rw [this.1, this.2]
     simp [List.range'_succ]
